@@ -657,7 +657,7 @@ const _: () = {
 };
 
 #[cfg(feature="ohkami_verif")] #[cfg(feature="__rt_native__")] #[doc(hidden)]
-pub use sync::{CtrlC as __VerifCtrlC, __VERIF_SCHED};
+pub use sync::{CtrlC as __VerifCtrlC, WaitGroup as __VerifWaitGroup, __VERIF_SCHED};
 #[cfg(feature="__rt_native__")]
 mod sync {
     /// verif hook H4: a callback the verification harness may install; called at numbered points of `UntilInterrupt::poll`
